@@ -807,6 +807,8 @@ def _positive_examples(rep):
     from . import lazy_rule as _lz
     _lz.positive_examples()
     from . import memo_rule as _mrp
+    if {r_["cls"].name for r_ in _mrp.broadcasting_equalities(pp)} != {"_LooseEq"}:
+        raise AnalysisError("positive example: the broadcasting-equality pattern did not flag exactly _LooseEq.__eq__")
     sh_w = {r_["fi"].name for r_ in _mrp.shallow_copy_writes(pp)}
     if sh_w != {"marked_cols"}:
         raise AnalysisError(f"positive example: the shallow-copy pattern flagged {sorted(sh_w)}, expected ['marked_cols']")
@@ -895,6 +897,8 @@ def run(project: Project, rep, tier: str):
     for r_ in _mr.setter_bypasses(project):
         rep.refuted("PU-CACHE", r_["fi"], r_["node"], r_["why"] + " — the result depends on what was asked of the source object before",
                     construct=f"{r_['fi'].qualname}: setter of {r_['prop']} bypassed")
+    for r_ in _mr.broadcasting_equalities(project):
+        rep.refuted("PU-EQ", r_["fi"], r_["node"], r_["why"], construct=f"{r_['fi'].qualname}: array_equiv in __eq__")
     for r_ in _mr.shallow_copy_writes(project):
         rep.refuted("PU-ALIAS", r_["fi"], r_["node"], r_["why"] + " — a method that promises a modified copy changes the object it was called on",
                     construct=f"{r_['fi'].qualname}: in-place write into shared {r_['attr']}")
